@@ -481,8 +481,11 @@ def _units_body(tier, seed):
     from checks import c08, c15
     out.append(c08.keytag_full_unit('observer/DnsRecordDnskey.key_tag (value and purity)'))
     gk, sk = c15.listed(c15.KF_GREASE), c15.listed(c15.KF_SCSV)
-    out.append(Unit('observer/TlsHandshakeClientHello.ja3 (value and purity)', c15.ja3_unit('unparsed', gk, sk), replay=c15.replay_for('unparsed', gk, sk),
-                    search=c15.search_for('unparsed', gk, sk), clause='observer purity', functions=['TlsHandshakeClientHello.ja3']))
+    # one template per kind of list ja3() walks: extension types, supported groups, point formats (a helper that filters GREASE
+    # values out of the message's own vectors leaves the string right and the hello changed)
+    for t in ('unparsed', 'groups', 'formats'):
+        out.append(Unit('observer/TlsHandshakeClientHello.ja3 (value and purity) [%s]' % t, c15.ja3_unit(t, gk, sk), replay=c15.replay_for(t, gk, sk),
+                        search=c15.search_for(t, gk, sk), clause='observer purity', functions=['TlsHandshakeClientHello.ja3']))
     UNCOVERED[:] = common.uncovered_report(e1.binary_classes(), classes) + \
         ['as_json/as_markdown (C14 territory) and hassh/fingerprints observers are not under contract here']
     from checks import foundation
